@@ -117,6 +117,15 @@ def tplItemOfIR (defs : Defs) : Nat → IR → Option TplItem
     | .tpl [single] => some single
     | _ => none
 
+/-- a template literal is a strict alternation quasi, hole, quasi, …, quasi (`convert_ts_tpl_lit_type_non_trivial`):
+empty quasis are explicit `StringConst("")` items -/
+def alternate : Tpl → Bool → Tpl
+  | [], expectQuasi => if expectQuasi then [.lit ""] else []
+  | .lit s :: rest, true => .lit s :: alternate rest false
+  | .lit s :: rest, false => .lit s :: alternate rest false   -- (adjacent quasis do not occur in source)
+  | h :: rest, true => .lit "" :: h :: alternate rest true
+  | h :: rest, false => h :: alternate rest true
+
 mutual
 /-- `extract_type` -/
 def lower (decls : List Decl) : Nat → List (String × IR) → Defs → Ty → LRes IR
@@ -160,7 +169,7 @@ def lower (decls : List Decl) : Nat → List (String × IR) → Defs → Ty → 
     | .tpl items =>
       match items with
       | [.lit s] => .ok (strConst s) defs
-      | _ => .ok (.tpl items) defs
+      | _ => .ok (.tpl (alternate items true)) defs
     | .ref name args => lowerRef decls n stack defs name args
     | .bi name args => lowerRef decls n stack defs name args
 
